@@ -90,33 +90,7 @@ func runC04(c *Ctx) {
 				hit, path := w.FromBlock(start)
 				c.Check("C04.D", "poll:unseen-branch-records-key", p, g.Pos(), hit == nil, "every path through the not-seen branch records the key with previouslySeen.Add(key, …)", "a path through the not-seen branch does not record the key ("+PathString(p, path)+"): the next list reply containing the same ID starts a second worker")
 			}
-			// ownership of the cache
-			bad := ""
-			for _, r := range Refs(cache) {
-				switch x := r.(type) {
-				case *ssa.Call:
-					n := CalleeName(x.Common())
-					if (n == lruGet || n == lruAdd || n == "(*github.com/golang/groupcache/lru.Cache).Len" || n == "(*github.com/golang/groupcache/lru.Cache).Remove") && x.Call.Args[0] == cache {
-						ok := true
-						for _, a := range x.Call.Args[1:] {
-							if a == cache {
-								ok = false
-							}
-						}
-						if ok {
-							continue
-						}
-					}
-					bad = "passed to " + n
-				case *ssa.DebugRef:
-				default:
-					bad = fmt.Sprintf("used by %T at %s (captured, stored or handed to another goroutine)", r, p.Pos(r.Pos()))
-				}
-			}
-			if _, isCall := cache.(*ssa.Call); !isCall {
-				bad = "not a local result of lru.New"
-			}
-			c.Check("C04.O", "poll:lru-confined", p, newc.Pos(), bad == "", "the LRU returned by lru.New is only used as the receiver of its own methods inside pollForNewRequests", "the dedup LRU (not goroutine-safe) escapes the polling goroutine: "+bad)
+			checkLRUConfined(c, p, "C04.O", newc)
 			n, ok := ConstInt(CallOf(newc).Args[0])
 			c.Check("C04.N", "poll:lru-window", p, newc.Pos(), ok && n >= 1000, fmt.Sprintf("lru.New(%d): window ≥ 1000", n), fmt.Sprintf("the dedup window is %d (constant: %v): with up to 1000 distinct IDs outstanding an ID can be evicted and forwarded again", n, ok))
 		}
@@ -278,4 +252,39 @@ func runC04(c *Ctx) {
 		}
 	}
 	_ = token.ADD
+}
+
+// checkLRUConfined: the *lru.Cache returned by lru.New in pollForNewRequests
+// is only used as the receiver of its own methods in that function.
+func checkLRUConfined(c *Ctx, p *Prog, rule string, newc ssa.Instruction) {
+	const lruGet = "(*github.com/golang/groupcache/lru.Cache).Get"
+	const lruAdd = "(*github.com/golang/groupcache/lru.Cache).Add"
+	cache := newc.(ssa.Value)
+	// ownership of the cache
+	bad := ""
+	for _, r := range Refs(cache) {
+		switch x := r.(type) {
+		case *ssa.Call:
+			n := CalleeName(x.Common())
+			if (n == lruGet || n == lruAdd || n == "(*github.com/golang/groupcache/lru.Cache).Len" || n == "(*github.com/golang/groupcache/lru.Cache).Remove") && x.Call.Args[0] == cache {
+				ok := true
+				for _, a := range x.Call.Args[1:] {
+					if a == cache {
+						ok = false
+					}
+				}
+				if ok {
+					continue
+				}
+			}
+			bad = "passed to " + n
+		case *ssa.DebugRef:
+		default:
+			bad = fmt.Sprintf("used by %T at %s (captured, stored or handed to another goroutine)", r, p.Pos(r.Pos()))
+		}
+	}
+	if _, isCall := cache.(*ssa.Call); !isCall {
+		bad = "not a local result of lru.New"
+	}
+	c.Check(rule, "poll:lru-confined", p, newc.Pos(), bad == "", "the LRU returned by lru.New is only used as the receiver of its own methods inside pollForNewRequests", "the dedup LRU (not goroutine-safe) escapes the polling goroutine: "+bad)
 }
